@@ -145,19 +145,26 @@ Proof.
   split; apply b64url_encode_injective; assumption.
 Qed.
 
+(* authenticated data as the API sees it: absent, or a non-empty byte string (zero-length data
+   is treated as absent by the code) *)
+Definition wf_aad (a : option bytes) : Prop :=
+  match a with Some x => wf_bytes x /\ x <> [] | None => True end.
+
 (* c16_aad_injective *)
 Lemma aad_input_injective p a p' a' :
-  wf_bytes p -> wf_bytes p' ->
-  match a with Some x => wf_bytes x | None => True end ->
-  match a' with Some x => wf_bytes x | None => True end ->
+  wf_bytes p -> wf_bytes p' -> wf_aad a -> wf_aad a' ->
   aad_input p a = aad_input p' a' -> p = p' /\ a = a'.
 Proof.
   intros Wp Wp' Wa Wa' E. unfold aad_input in E.
-  destruct a as [x|], a' as [x'|].
-  - apply app_dot_inj in E; try apply enc_no_dot. destruct E as [E1 E2].
+  destruct a as [x|], a' as [x'|]; cbn [wf_aad] in *.
+  - destruct Wa as [Wx Nx], Wa' as [Wx' Nx'].
+    destruct x as [|x0 x]; [contradiction|]. destruct x' as [|y0 x']; [contradiction|]. cbn [is_nil] in E.
+    apply app_dot_inj in E; try apply enc_no_dot. destruct E as [E1 E2].
     split; [|f_equal]; apply b64url_encode_injective; assumption.
-  - rewrite app_nil_r in E. symmetry in E. exfalso. revert E. apply no_dot_not_app, enc_no_dot.
-  - rewrite app_nil_r in E. exfalso. revert E. apply no_dot_not_app, enc_no_dot.
+  - destruct Wa as [Wx Nx]. destruct x as [|x0 x]; [contradiction|]. cbn [is_nil] in E.
+    rewrite app_nil_r in E. symmetry in E. exfalso. revert E. apply no_dot_not_app, enc_no_dot.
+  - destruct Wa' as [Wx' Nx']. destruct x' as [|y0 x']; [contradiction|]. cbn [is_nil] in E.
+    rewrite app_nil_r in E. exfalso. revert E. apply no_dot_not_app, enc_no_dot.
   - rewrite !app_nil_r in E. split; [|reflexivity]. apply b64url_encode_injective; assumption.
 Qed.
 
@@ -187,4 +194,24 @@ Proof.
   rewrite <- !app_assoc in E. apply app_inv_len_head in E.
   - destruct E as [-> E]. apply app_inv_len_head in E; [|exact Li]. destruct E as [-> ->]. auto.
   - rewrite !lenN_length in EL. lia.
+Qed.
+
+(* ------------------------------------------------------------------ members of a JSON serialization *)
+(* FullSerialize writes each field as the base64url text of a JSON string member; decoding the
+   members (the part of parseSignedFull / parseEncryptedFull that is not encoding/json) returns
+   the fields *)
+Lemma jws_of_b64_enc o :
+  wf_jws o -> jws_of_b64 (b64url_encode (js_prot o)) (b64url_encode (js_payload o)) (b64url_encode (js_sig o)) = Ok o.
+Proof.
+  intros (Wp & Wl & Ws). destruct o as [p l s]. cbn [js_prot js_payload js_sig] in *.
+  unfold jws_of_b64. rewrite !b64url_decode_r_enc by assumption. reflexivity.
+Qed.
+
+Lemma jwe_of_b64_enc o :
+  wf_jwe o ->
+  jwe_of_b64 (b64url_encode (je_prot o)) (b64url_encode (je_key o)) (b64url_encode (je_iv o))
+             (b64url_encode (je_ct o)) (b64url_encode (je_tag o)) = Ok o.
+Proof.
+  intros (Wp & Wk & Wi & Wc & Wt). destruct o as [p k i c t]. cbn [je_prot je_key je_iv je_ct je_tag] in *.
+  unfold jwe_of_b64. rewrite !b64url_decode_r_enc by assumption. reflexivity.
 Qed.
